@@ -47,7 +47,7 @@ list([x for y in range(10) for x in range(12 + y)])
 list({x: 100 for x in range(10)})
         """,
         """
-list({x: 100 for x in range(10)})
+list({x for x in range(10)})
         """,
         ),
         (
@@ -71,7 +71,7 @@ dict({x: 100 for x in range(10)})
 iter({x: 100 for x in range(10)})
         """,
         """
-iter({x: 100 for x in range(10)})
+iter({x for x in range(10)})
         """,
         ),
         (
